@@ -421,9 +421,12 @@ class MOLGP:
                 correlation kernels (True) or just the exchange kernels
                 (False).
         """
+        saved_refs = False
         for i, kernel in enumerate(self.kernels):
             print(ddir, get_orb_deriv, get_correlation)
-            save_refs = i == 0
+            # the reference data are stored with the first kernel that is
+            # actually processed (kernel 0 may be skipped below)
+            save_refs = not saved_refs
             if isinstance(get_orb_deriv, (list, tuple)):
                 deriv = get_orb_deriv[i]
             else:
@@ -432,6 +435,7 @@ class MOLGP:
                 self._compute_mol_covs(
                     ddir, mol_ids, kernel, get_orb_deriv=deriv, save_refs=save_refs
                 )
+                saved_refs = True
 
     def reset_reactions(self):
         self.rxn_ref_list = []
